@@ -463,6 +463,34 @@ type LoopContract struct {
 	HasMod     bool
 }
 
+// GhostDef is a ghost assignment performed at every return of the function (and replayed at call sites):
+// [forall v... ::] target := rhs, where target is a ghost map element path or a ghost field.
+type GhostDef struct {
+	Vars   []BoundDecl
+	Target *Expr
+	Rhs    *Expr
+	Pos    string
+}
+
+// ModEach: modifies-each x T where cond :: f1, f2 — the listed fields of every object x satisfying cond
+// (evaluated in the pre-state).
+type ModEach struct {
+	Var    string
+	Type   string
+	Cond   *Expr
+	Fields []string
+	Pos    string
+}
+
+// CallAssert: "assert after <callee> #k: expr" — an intermediate assertion proved right after the k-th call
+// of the named callee (cut point: proved once, then available as an assumption).
+type CallAssert struct {
+	Callee string
+	Ord    int
+	Expr   *Expr
+	Pos    string
+}
+
 type CallbackContract struct { // contract of a function-typed parameter
 	Param    string
 	Requires []*Expr
@@ -480,6 +508,10 @@ type Contract struct {
 	Requires  []*Expr
 	Ensures   []*Expr
 	Assumed   []*Expr // postconditions assumed for callers, not proved on the body
+	GhostDefs []GhostDef
+	ModEach   []ModEach
+	Asserts   []CallAssert
+	ArithUnchecked string // reason: signed overflow assumed not to occur in this function
 	Modifies  []*Expr
 	HasMod    bool
 	PanicWhen *Expr
@@ -534,7 +566,7 @@ func NewSpecSet() *SpecSet {
 var clauseKeywords = map[string]bool{
 	"pred": true, "pure": true, "func": true, "iface": true, "requires": true, "ensures": true, "modifies": true,
 	"invariant": true, "loop": true, "decreases": true, "panics": true, "mode": true, "ghost": true,
-	"trusted": true, "inline": true, "assumes": true, "axiom": true, "package": true, "fresh": true, "lemma": true, "callback": true, "noverify": true, "opaque": true,
+	"trusted": true, "inline": true, "assumes": true, "axiom": true, "ghostdef": true, "arith": true, "modifies-each": true, "assert": true, "package": true, "fresh": true, "lemma": true, "callback": true, "noverify": true, "opaque": true,
 }
 
 // LoadSpecFile parses one contract file. pkgPath is the default package for the file.
@@ -687,6 +719,75 @@ func (ss *SpecSet) LoadSpecFile(path, pkgPath string, trustedFile bool) error {
 				} else {
 					cur.Ensures = append(cur.Ensures, e)
 				}
+			case "ghostdef":
+				gd := GhostDef{Pos: pos}
+				body := rest
+				if strings.HasPrefix(body, "forall ") {
+					k := strings.Index(body, "::")
+					if k < 0 {
+						return fmt.Errorf("%s: ghostdef forall without '::'", pos)
+					}
+					for _, v := range parseParams(body[len("forall "):k]) {
+						gd.Vars = append(gd.Vars, BoundDecl{Name: v.Name, Type: v.Type})
+					}
+					body = body[k+2:]
+				}
+				k := strings.Index(body, ":=")
+				if k < 0 {
+					return fmt.Errorf("%s: ghostdef without ':='", pos)
+				}
+				t, err := parse(body[:k])
+				if err != nil {
+					return err
+				}
+				r, err := parse(body[k+2:])
+				if err != nil {
+					return err
+				}
+				gd.Target, gd.Rhs = t, r
+				cur.GhostDefs = append(cur.GhostDefs, gd)
+			case "modifies-each":
+				k := strings.Index(rest, "::")
+				w := strings.Index(rest, " where ")
+				if k < 0 || w < 0 || w > k {
+					return fmt.Errorf("%s: modifies-each needs 'x T where cond :: fields'", pos)
+				}
+				vp := parseParams(rest[:w])
+				if len(vp) != 1 {
+					return fmt.Errorf("%s: modifies-each needs one variable", pos)
+				}
+				ce, err := parse(rest[w+7 : k])
+				if err != nil {
+					return err
+				}
+				me := ModEach{Var: vp[0].Name, Type: vp[0].Type, Cond: ce, Pos: pos}
+				for _, f := range splitTop(rest[k+2:]) {
+					me.Fields = append(me.Fields, strings.TrimSpace(f))
+				}
+				cur.ModEach = append(cur.ModEach, me)
+				cur.HasMod = true
+			case "assert":
+				// assert after <callee> #k: expr
+				r := strings.TrimSpace(strings.TrimPrefix(rest, "after"))
+				k := strings.Index(r, ":")
+				h := strings.Index(r, "#")
+				if k < 0 || h < 0 || h > k {
+					return fmt.Errorf("%s: assert needs 'after <callee> #k: expr'", pos)
+				}
+				ord, err := strconv.Atoi(strings.TrimSpace(r[h+1 : k]))
+				if err != nil {
+					return fmt.Errorf("%s: bad call ordinal in assert", pos)
+				}
+				e, err := parse(r[k+1:])
+				if err != nil {
+					return err
+				}
+				cur.Asserts = append(cur.Asserts, CallAssert{Callee: strings.TrimSpace(r[:h]), Ord: ord, Expr: e, Pos: pos})
+			case "arith":
+				cur.ArithUnchecked = strings.TrimSpace(strings.TrimPrefix(rest, "unchecked"))
+				if cur.ArithUnchecked == "" {
+					cur.ArithUnchecked = "unspecified"
+				}
 			case "assumes":
 				e, err := parse(rest)
 				if err != nil {
@@ -697,9 +798,21 @@ func (ss *SpecSet) LoadSpecFile(path, pkgPath string, trustedFile bool) error {
 				var locs []*Expr
 				if rest != "nothing" {
 					for _, part := range splitTop(rest) {
+						var guard *Expr
+						if k := strings.Index(part, " if "); k >= 0 {
+							g, err := parse(part[k+4:])
+							if err != nil {
+								return err
+							}
+							guard = g
+							part = part[:k]
+						}
 						e, err := parse(part)
 						if err != nil {
 							return err
+						}
+						if guard != nil {
+							e = &Expr{Kind: EBinary, Op: "if", Args: []*Expr{e, guard}, Pos: pos, Text: e.Text + " if " + guard.Text}
 						}
 						locs = append(locs, e)
 					}
